@@ -21,6 +21,8 @@ META = (META[0] + ' SIB; INITFORM (emplace direct-non-list-initialises the key).
 META = (META[0] + ' S6 with the emptied postcondition of extract(); ERASECNT.', META[1])
 META = (META[0] + ' S8 (the iterator returned for a new element is the lower_bound position); EQRANGE.', META[1])
 
+META = (META[0] + ' BISECT (the bisection loops of lower_bound / upper_bound, which every lookup and insertion of the sets rests on, keep exactly the half that can hold the answer).', META[1])
+
 
 def run(chk, tier):
     db = D.load("checks")
@@ -32,6 +34,8 @@ def run(chk, tier):
     from ..rules import iters as _ITE
     _ITE.erase_count_area(chk, db, ['_set/', '_flat_set/'])      # ERASECNT: erase / erase_if return the number of erased elements
     _ITE.equal_range_area(chk, db, ['_set/', '_flat_set/', '_algorithm/equal_range'])      # EQRANGE
+    if _ITE.bisect_area(chk, db, ['_algorithm/lower_bound', '_algorithm/upper_bound']) < 2:      # BISECT: the searches every set lookup rests on
+        chk.analysis_broken("BISECT: the bisection loops of lower_bound / upper_bound were not found")
     from ..rules import initform as _IF
     _IF.check(chk, db, ['_set/', '_flat_set/'])      # INITFORM: emplace direct-non-list-initialises the key
     totals = {}
